@@ -60,6 +60,7 @@ TStart == /\ l = 1 /\ Is("init") /\ Adv
           /\ term' = ApplyOps(term, E.ops)
           /\ last' = Event("init", 0, E.lines, E.w, E.ops)
           /\ UNCHANGED <<ansi, pre, content, plog, gate, secs, taint>>
+          /\ Check(tid, l, "P.completes", E.exc, E.exc = "")
           /\ Check(tid, l, "H.init", "", OnlyPlain(E.ops) /\ Screen(term') = Visible(FoldAll(pre, term.w)))
 
 TCreate == /\ l > 1 /\ Is("create") /\ Adv
@@ -84,9 +85,11 @@ TOp == /\ l > 1 /\ l <= Len(T) /\ E.op \in {"write", "overwrite", "clear", "clea
 
 \* set_quiet / set_verbosity on one section: expected to be silent (A-clause); whatever reaches the stream is
 \* applied to the terminal and the screen clause evaluated as after any other call
-TGate == /\ l > 1 /\ l <= Len(T) /\ E.op \in {"quiet", "verb"} /\ Adv
-         /\ Check(tid, l, "H.domain", "", E.s \in 1..Len(secs) /\ E.n \in {0, 1, 2, 4})
-         /\ gate' = IF E.op = "quiet" THEN [gate EXCEPT ![E.s].quiet = (E.n = 1)] ELSE [gate EXCEPT ![E.s].verb = E.n]
+TGate == /\ l > 1 /\ l <= Len(T) /\ E.op \in {"quiet", "verb", "indent"} /\ Adv
+         /\ Check(tid, l, "H.domain", "", E.s \in 1..Len(secs) /\ (E.op # "indent" => E.n \in {0, 1, 2, 4}))
+         /\ gate' = CASE E.op = "quiet" -> [gate EXCEPT ![E.s].quiet = (E.n = 1)]
+                      [] E.op = "verb" -> [gate EXCEPT ![E.s].verb = E.n]
+                      [] OTHER -> [gate EXCEPT ![E.s].ind = E.n]
          /\ term' = ApplyOps(term, E.ops)
          /\ last' = Event(E.op, E.s, NoLines, E.n, E.ops)
          /\ UNCHANGED <<ansi, pre, content, plog, secs, taint>>
